@@ -874,7 +874,10 @@ func (c *converter) applyMeta(schema core.ZodSchema, jsonSchema *lib.Schema) {
 		jsonSchema.Description = new(meta.Description)
 	}
 	if len(meta.Examples) > 0 && len(jsonSchema.Examples) == 0 {
-		jsonSchema.Examples = meta.Examples
+		// The document gets its own list: Registry.Get hands out a struct copy whose Examples
+		// slice still shares its backing array with the registry entry, so an Override callback
+		// (or the caller) editing the document's examples in place would edit the entry too.
+		jsonSchema.Examples = slices.Clone(meta.Examples)
 	}
 }
 
